@@ -190,6 +190,84 @@ def _mergeable(stmts, safe):
     return True
 
 
+def _ret_outside_loops(stmts):
+    """is there a `return` in stmts that is nested in ifs only (not in a loop / try / with)?"""
+    for s in stmts:
+        if isinstance(s, ast.Return):
+            return True
+        if isinstance(s, ast.If) and (_ret_outside_loops(s.body) or _ret_outside_loops(s.orelse)):
+            return True
+    return False
+
+
+def _always_returns(stmts):
+    if not stmts:
+        return False
+    last = stmts[-1]
+    if isinstance(last, ast.Return):
+        return True
+    if isinstance(last, ast.If):
+        return _always_returns(last.body) and _always_returns(last.orelse)
+    return False
+
+
+def _lower_returns(stmts, budget):
+    """continuation form: the statements after an `if` that contains a return move into the branches that did not
+    return yet, so that every return is the last statement of its branch"""
+    import copy
+    for k, s in enumerate(stmts):
+        if isinstance(s, ast.Return):
+            return stmts[:k + 1]                 # code after a return is dead
+        if isinstance(s, ast.If) and (_ret_outside_loops(s.body) or _ret_outside_loops(s.orelse)):
+            rest = stmts[k + 1:]
+            budget[0] -= len(rest)
+            if budget[0] < 0:
+                raise _NoLower()
+            body = s.body + (copy.deepcopy(rest) if not _always_returns(s.body) else [])
+            orelse = s.orelse + (rest if not _always_returns(s.orelse) else [])
+            ns = ast.If(s.test, _lower_returns(body, budget) or [ast.Pass()], _lower_returns(orelse, budget))
+            return stmts[:k] + [ns]
+    return stmts
+
+
+class _NoLower(Exception):
+    pass
+
+
+def _tail_returns_to_assign(stmts, var):
+    """[..., If(all leaves end in return)] -> the returns become assignments to var; True on success"""
+    if not stmts:
+        return False
+    last = stmts[-1]
+    if isinstance(last, ast.Return):
+        stmts[-1] = ast.Assign([ast.Name(var, ast.Store())], last.value if last.value is not None else ast.Constant(None))
+        return True
+    if isinstance(last, ast.If) and _always_returns(last.body) and _always_returns(last.orelse):
+        return _tail_returns_to_assign(last.body, var) and _tail_returns_to_assign(last.orelse, var)
+    return False
+
+
+def lower_early_returns(fd):
+    """`if c: return a` ... `return b` (returns nested in ifs only) -> single exit, so that the ifs can be merged"""
+    body = fd.body
+    if any(isinstance(n, (ast.For, ast.While, ast.Try, ast.With)) for n in ast.walk(ast.Module(body, []))):
+        return False         # only straight-line helper functions: elsewhere a fork at the return is the safe reading
+    if not any(isinstance(s, ast.If) and (_ret_outside_loops(s.body) or _ret_outside_loops(s.orelse)) for s in body):
+        return False
+    import copy
+    try:
+        new = _lower_returns(copy.deepcopy(body), [200])
+    except _NoLower:
+        return False
+    if not (new and isinstance(new[-1], ast.If) and _always_returns(new[-1:])):
+        return False
+    if not _tail_returns_to_assign(new, "_rt_retval"):
+        return False
+    new.append(ast.Return(ast.Name("_rt_retval", ast.Load())))
+    fd.body = new
+    return True
+
+
 def _has_continue(stmts):
     for s in stmts:
         if isinstance(s, ast.Continue):
@@ -390,6 +468,58 @@ def _record(fn, src):
     return name
 
 
+_LEAF = {}
+
+
+def _leaf_kernels(fn):
+    """names (in fn's globals) of compiled helper kernels that are safe to call inside a merged `if`: straight-line scalar code
+    (assignments, ifs, returns; no loops, no computed slices, no raise, calls only to builtins / other leaf kernels).  Their
+    effects are guard-aware (array stores) or local, so running them under a false guard is harmless."""
+    from numba.core.dispatcher import Dispatcher
+    out = []
+    for k, v in getattr(fn, "__globals__", {}).items():
+        if isinstance(v, Dispatcher) and _is_leaf(v, fn.__globals__, set()):
+            out.append(k)
+    return out
+
+
+def _is_leaf(disp, g, seen):
+    from numba.core.dispatcher import Dispatcher
+    py = disp.py_func
+    if py in _LEAF:
+        return _LEAF[py]
+    if py in seen:
+        return False
+    seen.add(py)
+    ok = True
+    try:
+        fd = ast.parse(source_of(py)).body[0]
+    except (OSError, TypeError, SyntaxError, IndexError):
+        ok = False
+        fd = None
+    if fd is not None:
+        fd.decorator_list = []
+        for n in ast.walk(ast.Module(fd.body, [])):
+            if isinstance(n, (ast.For, ast.While, ast.Raise, ast.Try, ast.With, ast.Lambda, ast.ListComp, ast.GeneratorExp, ast.Yield, ast.Global, ast.Nonlocal)):
+                ok = False
+            elif isinstance(n, ast.Slice):
+                for b in (n.lower, n.upper, n.step):
+                    if b is not None and not isinstance(b, ast.Constant):
+                        ok = False
+            elif isinstance(n, ast.Call):
+                f = n.func
+                if not isinstance(f, ast.Name):
+                    ok = False
+                elif f.id not in SAFE_CALLS:
+                    callee = g.get(f.id)
+                    if not (isinstance(callee, Dispatcher) and _is_leaf(callee, g, seen)):
+                        ok = False
+            if not ok:
+                break
+    _LEAF[py] = ok
+    return ok
+
+
 def transform(fn, overrides=None, _memo=None, merge=True, also=(), safe_calls=(), owner=None):
     """Return the working tree's `fn` re-compiled from source with the merging pass applied and
     its module globals replaced by shims / transformed kernels."""
@@ -407,7 +537,9 @@ def transform(fn, overrides=None, _memo=None, merge=True, also=(), safe_calls=()
     tree = ast.parse(src)
     fd = tree.body[0]
     fd.decorator_list = []
-    xf = Xf(merge=merge, safe_calls=safe_calls)
+    if merge:
+        lower_early_returns(fd)
+    xf = Xf(merge=merge, safe_calls=tuple(safe_calls) + tuple(_leaf_kernels(fn)))
     tree = xf.visit(tree)
     if "_rt_super" in overrides:
         _rewrite_super(tree)
@@ -512,7 +644,7 @@ def extract_loop_body(fn, overrides=None, which=0, merge=True, name="step", drop
                 loaded.add(n.id)
     args = sorted((loaded | stored) & assigned)
     # `continue` at the top level of the loop body ends the step
-    xf = Xf(merge=merge)
+    xf = Xf(merge=merge, safe_calls=tuple(_leaf_kernels(fn)))
     body = xf._elim_continue(body) if merge else body
     ret = ast.Return(ast.Dict([ast.Constant(k) for k in sorted(stored)],
                               [ast.Call(ast.Attribute(ast.Call(ast.Name("locals", ast.Load()), [], []), "get", ast.Load()),
@@ -582,7 +714,7 @@ def extract_block(fn, pick, overrides=None, merge=True, name="block", extra_args
             if isinstance(n, ast.AugAssign) and isinstance(n.target, ast.Name):
                 loaded.add(n.target.id)
     args = sorted((loaded & assigned) | set(extra_args))
-    xf = Xf(merge=merge)
+    xf = Xf(merge=merge, safe_calls=tuple(_leaf_kernels(fn)))
     body = xf._elim_continue(body) if merge else body
     ret = ast.Return(ast.Dict([ast.Constant(k) for k in sorted(stored)],
                               [ast.Call(ast.Attribute(ast.Call(ast.Name("locals", ast.Load()), [], []), "get", ast.Load()),
